@@ -154,6 +154,9 @@ def main(tier):
             okl = l is not None and M(("if", ("op", "or", "bool", ("op", "eq", "i64", ("param", "?p1"), ("lit", "0", "i64")), ("op", "eq", "i64", ("param", "?p2"), ("lit", "0", "i64"))), ("return", ("Some", ("lit", "0", "i64"))),
                                         ("call", "i64::checked_abs", ("try", ("call", "i64::checked_mul", ("try", ("call", "i64::checked_div", ("param", "?p1"), ("try", ("call", "Ast.gcd", ("param", "?p1"), ("param", "?p2"))))), ("param", "?p2"))))), l) is not None
             run.ob(okl, "euclid|lcm", "C11 lcm(a, b) = |a / gcd(a, b) * b| with checked operations, 0 if either is 0", where(m, "::ast::lcm"), "" if okl else "mismatch: " + T.show(l)[:300])
+        # parser side: the argument list handed to the aggregate holds each written argument exactly once, in order
+        okl, why = m.list_shape()
+        run.ob(bool(okl), "args-collected|%s" % ev, "C11 every written argument reaches the aggregate exactly once (local vector, one push per argument, also when aggregates are nested)", where(m, "::parser::Parser::find_item_list"), why)
         # parser side: empty list -> Err, avg() -> 0 (decided in C03 as arity check; repeated here relationally)
         arms_p, after = m.prim_functions()
         for name in ("min(", "max(", "avg(", "med(", "median(") + (("gcd(", "lcm(") if ev == "eval_i64" else ()):
